@@ -267,7 +267,7 @@ def cross_case(draw):
 class CrossZone(Sub):
     ambient = True
     name = "cross_zone"
-    backends = ("rust",)
+    backends = ("rust", "py")
     n = {"quick": 12000, "thorough": 300000}
     shards = {"quick": 4, "thorough": 8}
     rule = ("endpoints in differently named zones: components equal those of the same two instants expressed in UTC, for both helpers and "
@@ -300,6 +300,12 @@ class CrossZone(Sub):
         if True:
             req((iv.remaining_seconds, iv.microseconds) == ref[5:], "Interval: seconds/microseconds differ from the UTC decomposition",
                 got=(iv.remaining_seconds, iv.microseconds), expected=ref[5:])
+        # the same pair reaching Interval as NATIVE datetimes (the factory and the operators accept them): same components on either backend
+        for nm, f in (("interval(native a, native b)", lambda: pendulum.interval(a, b)), ("instance(b) - native a", lambda: pendulum.instance(b) - a),
+                      ("native b - instance(a)", lambda: b - pendulum.instance(a))):
+            c3 = interval_components(f())
+            got3 = (c3[0], c3[1], c3[2] * 7 + c3[3], c3[4], c3[5], c3[6], c3[7])
+            req(got3 == tuple(ref), f"{nm}: cross-zone components differ from the UTC decomposition", a=a.isoformat(), b=b.isoformat(), got=got3, expected=tuple(ref))
         nt = a.date() != ua.date() or b.date() != ub.date()
         return nt, "shift-crosses-day" if nt else "same-day"
 
